@@ -54,6 +54,10 @@ def fact_substs(lit):
             return [{b: a}]
         if _atomic(a) and _atomic(b):
             return [{a: b}]
+        if const_value(b) == 0:
+            return falsy(a)
+        if const_value(a) == 0:
+            return falsy(b)
         return [{("op", "-", a, b): ("const", 0)}]
     if lit[0] == "not":
         return falsy(lit[1])
